@@ -201,6 +201,10 @@ def run(ctx, R, tier):
                         or any(st['k'] in ('assign', 'setdiscr') and st['lhs']['p'] for st in b.blocks[x]['stmts']))]
                     if not acts:
                         problems.append('a command that arrived is read and then ignored (nothing is called or stored on the Some side)')
+                    else:
+                        why = payload_always_used(b, dl, oe[0], some_side)
+                        if why:
+                            problems.append(why)
         R.check(not problems, 'B.C07.cover', 'reader:' + key, '; '.join(problems),
                 detail={'field': key, 'read_in': b.path, 'side': 'decoder' if in_dec and not in_osp else 'audio'},
                 where=b.where(bb))
@@ -237,6 +241,70 @@ def run(ctx, R, tier):
     write_unconditional(F, R)
     from ..witness import run_witnesses
     run_witnesses(R, 'C07')
+
+
+PREDICATES = ('eq', 'ne', 'lt', 'le', 'gt', 'ge', 'partial_cmp', 'cmp', 'is_some', 'is_none', 'is_zero', 'is_empty', 'clone', 'deref',
+              'as_ref', 'borrow', 'fmt')
+
+
+def payload_always_used(b, dl, some_block, some_side):
+    """Exactly once means: once a command has been taken out of its reader it is applied, whatever the current state looks
+    like.  On the Some side every path to the code after it hands the command's value to a call (other than a comparison
+    / predicate) or stores it; a handler that drops the value on some condition has consumed the command for nothing.
+    -> None, or what is wrong."""
+    from ..facts import op_local
+    from ..rules import must_pass
+    derived = {dl}
+    changed = True
+    while changed:
+        changed = False
+        for x in some_side:
+            for st in b.blocks[x]['stmts']:
+                if st['k'] != 'assign' or st['lhs']['p']:
+                    continue
+                rv = st['rv']
+                ops = []
+                if rv['k'] in ('use', 'cast'):
+                    ops = [rv['op']]
+                elif rv['k'] in ('ref', 'rawptr'):
+                    ops = [{'pl': rv['pl']}]
+                elif rv['k'] == 'agg':
+                    ops = rv['ops']
+                for o in ops:
+                    l = (o.get('pl') or {}).get('l') if isinstance(o, dict) else None
+                    if l in derived and st['lhs']['l'] not in derived:
+                        derived.add(st['lhs']['l'])
+                        changed = True
+    uses = []
+    for x in some_side:
+        if b.blocks[x]['cleanup']:
+            continue
+        t = b.blocks[x]['term']
+        if t['k'] in ('call', 'tailcall'):
+            nm = (t.get('callee') or {}).get('name') or (callee_path(t) or '').split('::')[-1]
+            if nm not in PREDICATES and any(op_local(a) in derived for a in t['args']):
+                uses.append(x)
+            # a closure capturing the payload handed to a call
+        if t.get('inlined'):
+            uses.append(x)
+        for st in b.blocks[x]['stmts']:
+            if st['k'] == 'assign' and st['lhs']['p'] and st['rv']['k'] in ('use', 'cast', 'agg'):
+                ops = [st['rv']['op']] if st['rv']['k'] != 'agg' else st['rv']['ops']
+                if any(op_local(o) in derived for o in ops):
+                    uses.append(x)
+    if not uses:
+        return None     # payload-free command (e.g. `reset`): decided by the clause above
+    exits = set()
+    for x in some_side:
+        for y in b.succ(x):
+            if y not in some_side and not b.blocks[y]['cleanup']:
+                exits.add(y)
+        if b.blocks[x]['term']['k'] == 'return':
+            exits.add(x)
+    if not must_pass(b, [some_block], exits, uses):
+        return ('a command that arrived can be dropped: on the Some side some path reaches the code after it without handing '
+                'the value to anything (a handler that skips a command it judges redundant has still consumed it)')
+    return None
 
 
 def pairing(F, R, readers, writers):
@@ -321,6 +389,22 @@ def half_of(b, op, dest_of):
 
 
 def guard(F, R):
+    # Parameter::read_command is the read site of every value-change command: what it reads is always applied
+    pb = F.body('parameter::Parameter::<T>::read_command')
+    if R.check(pb is not None, 'B.C07.guard', 'anchor:read_command', 'Parameter::read_command not found'):
+        from ..rules import option_edges
+        rs = [x for x, t in pb.calls() if (callee_path(t) or '') == 'command::CommandReader::<T>::read']
+        why = 'Parameter::read_command does not read its command reader exactly once'
+        if len(rs) == 1:
+            oe = option_edges(pb, rs[0])
+            why = 'the Option read is not matched on'
+            if oe:
+                some_side = pb.reachable([oe[0]]) - pb.reachable([oe[1]])
+                sets = [x for x in some_side if (callee_path(pb.blocks[x]['term']) or '') == 'parameter::Parameter::<T>::set']
+                why = payload_always_used(pb, pb.blocks[rs[0]]['term']['dest']['l'], oe[0], some_side)
+                if not sets:
+                    why = 'the command read is not handed to Parameter::set'
+        R.check(not why, 'B.C07.guard', 'Parameter::read_command', why or '', detail='read() is Some => self.set(target, tween) on every path', where=pb.file)
     b = F.body('command::CommandReader::<T>::read')
     if not R.check(b is not None, 'B.C07.guard', 'anchor', 'CommandReader::read not found'):
         return
@@ -422,7 +506,7 @@ def first(F, R):
     R.floor('B.C07.first', n, 8)
 
 
-def write_unconditional(F, R):
+def write_unconditional(F, R, rule='B.C07.write', fn_filter=None, floor=60):
     """A command issued on a handle is written, whatever the handle believes the current state to be: in every function
     that writes a command, each path to a return passes a CommandWriter::write (directly or in a closure handed to a call),
     except paths that report an error to the caller (`Err(..)`, e.g. a send route that does not exist).  A setter that
@@ -430,11 +514,28 @@ def write_unconditional(F, R):
     two callbacks, because that value is only refreshed by the audio thread."""
     from ..rules import op_sites
     n = 0
+    direct = {}
     for b in F.bodies:
         if b.krate != 'kira' or '{closure' in b.path:
             continue
         ws = set(op_sites(F, b, lambda p, t: p == 'command::CommandWriter::<T>::write'))
-        if not ws:
+        if ws:
+            direct[b.path] = ws
+    # wrappers: a function whose command goes out through another command-writing function (`resume` -> `resume_at`)
+    # owes the same: on every non-error path it reaches that call
+    sites = dict(direct)
+    for _ in range(3):
+        for b in F.bodies:
+            if b.krate != 'kira' or '{closure' in b.path or b.path in sites:
+                continue
+            cs = set(op_sites(F, b, lambda p, t: p in sites))
+            if cs:
+                sites[b.path] = cs
+    for b in F.bodies:
+        if b.krate != 'kira' or '{closure' in b.path or b.path not in sites:
+            continue
+        ws = sites[b.path]
+        if fn_filter is not None and not fn_filter(b.path):
             continue
         n += 1
         bad = None
@@ -445,10 +546,10 @@ def write_unconditional(F, R):
             if 'Result::Err' in ret or '::Err(' in ret or 'from_residual' in ret:
                 continue
             bad = [(d[:80], l) for _, d, l in p.decisions][-3:]
-        R.check(bad is None, 'B.C07.write', b.path,
+        R.check(bad is None, rule, b.path,
                 '%s can return without writing its command (after %s): a command issued on the handle is dropped on that path'
                 % (b.path, bad), detail={'writes': len(ws)}, where=b.file)
-    R.floor('B.C07.write', n, 60)
+    R.floor(rule, n, floor)
 
 
 def once(F, R):
